@@ -318,6 +318,30 @@ def run(ctx):
                 ctx.count("shipped_transfers")
                 if status != 1 or blk != snaps[0]["bytes"]:
                     ctx.fail("shipped:%s:serve" % fn, "client did not receive shipped snapshot %s unchanged" % fn, {"file": fn, "status": status})
+            # ... and a part of it: the refresh request of a connected client asks for the live region only (a non-zero start), others for any range
+            lo = getattr(sim.structure, "log_class", None)
+            ranges = []
+            try:
+                ranges.append((int(sim.log_class.begin), int(sim.log_class.end) - int(sim.log_class.begin)))
+            except Exception:  # noqa
+                ranges.append((256, 224))
+            ranges += [(ctx.rng.randrange(1, 1000), ctx.rng.randrange(1, 120)) for _ in range(3 if ctx.thorough else 1)]
+            for (st0, ln0) in ranges:
+                ln0 = max(1, min(ln0, 1024 - st0))
+                chain = real_chain(sim, st0, ln0)
+                status, sends, blk = run_async(bytes(1024), st0, ln0, chain, [("C", i) for i in range(len(chain))])
+                ctx.count("shipped_partial_transfers")
+                ctx.case(("partial", fn, st0, ln0), nontrivial=True)
+                # inside the range: the snapshot's bytes; outside: untouched, or the snapshot's byte at that offset (the simulator's last segment is
+                # a whole segment, so up to a segment's worth of bytes beyond the range arrive as well - unchanged ones)
+                sb = snaps[0]["bytes"]
+                ok_at = lambda i: (blk[i] == sb[i]) if st0 <= i < st0 + ln0 else (blk[i] in (0, sb[i]))   # noqa: E731
+                good = isinstance(blk, (bytes, bytearray)) and len(blk) == 1024 and all(ok_at(i) for i in range(1024))
+                if status != 1 or not good:
+                    firstbad = next((i for i in range(1024) if not ok_at(i)), None) if isinstance(blk, (bytes, bytearray)) and len(blk) == 1024 else None
+                    ctx.fail("shipped:serve_part", "a client asking the simulator for bytes %d..%d of shipped snapshot %s did not receive them unchanged (first difference at offset %r)" % (
+                        st0, st0 + ln0, fn, firstbad), {"file": fn, "start": st0, "length": ln0, "status": status, "first_difference_at": firstbad})
+                    break
     ctx.extra["shipped_snapshots"] = len(shipped)
     for s in (meta[0], meta[3], meta[-1]):
         ctx.sample(s)
